@@ -91,6 +91,7 @@ type c08 struct {
 	oldRepl   map[bool]*proto4.RPCReplenishAccountsRequest
 	foreign   types.PrivateKey
 	unknownID types.FileContractID
+	prevIDs   []types.FileContractID // contracts renewed away from
 }
 
 func (c *c08) report(sig, what string, ev *rhplab.Event, detail map[string]any) {
@@ -294,11 +295,17 @@ func (c *c08) do(st c08Step) (res c08Result) {
 	}
 	switch st.RPC {
 	case "latest":
-		resp, err := c.raw.LatestRevision(contract.ID)
+		id := contract.ID
+		if bad == "" && len(c.prevIDs) > 0 && c.rng.IntN(2) == 0 {
+			id = c.prevIDs[c.rng.IntN(len(c.prevIDs))] // a contract that has been renewed since
+		}
+		resp, err := c.raw.LatestRevision(id)
 		res.err, res.success = err, err == nil
 		if err == nil {
-			if hs, serr := c.lab.State(contract.ID); serr == nil && (resp.Contract != hs.Revision || resp.Revisable != hs.Revisable || resp.Renewed != hs.Renewed) {
-				c.report("latest-revision-wrong", "RPCLatestRevision does not return the host's committed revision", nil, map[string]any{"rpc": resp, "host": hs})
+			if hs, serr := c.lab.State(id); serr == nil && (resp.Contract != hs.Revision || resp.Revisable != hs.Revisable || resp.Renewed != hs.Renewed) {
+				c.report("latest-revision-wrong", "RPCLatestRevision does not return the host's committed revision and flags", nil, map[string]any{"rpc": resp, "host": hs})
+			} else if serr == nil {
+				c.r.Count("latest_revision_checked", 1)
 			}
 		}
 	case "free":
@@ -587,6 +594,9 @@ func (c *c08) step(st c08Step) error {
 		c.r.Count("bad_requests", 1)
 		c.r.SetAdd("bad_table", label)
 		c.r.Distinct(label)
+		if len(c.steps)%37 == 0 {
+			c.r.Sample(map[string]any{"worker": c.worker, "step": st, "host_answer": errText(res.err), "persisting_calls": len(commits), "state_unchanged": post.equal(pre)})
+		}
 		if res.success {
 			c.report("bad-request-succeeded:"+label, "a request built to be invalid completed successfully", nil, map[string]any{"pre": pre, "post": post})
 		}
@@ -642,6 +652,7 @@ func (c *c08) step(st c08Step) error {
 			} else if stripSigs(fce.V2FileContract) != stripSigs(last.Revision) {
 				c.report("renewal-confirmed-differs:"+st.RPC, "the confirmed renewed contract differs from the one handed to the Contractor", &last, nil)
 			}
+			c.prevIDs = append(c.prevIDs, c.contract.ID)
 			c.contract = rhp.ContractRevision{ID: newID, Revision: last.Revision}
 			c.cs = c.lab.CM.TipState()
 			c.aud.cs = c.cs
